@@ -37,6 +37,8 @@ pub fn stream_byte(stream: u64, off: u64) -> u8 {
         3 => 0xFF,
         4 => 0xC3,
         5 => 0x00,
+        // carriage returns (progress output), sometimes right in front of a line feed
+        6 | 7 => b'\r',
         _ => b'a' + ((h >> 8) % 26) as u8,
     }
 }
